@@ -51,6 +51,16 @@ Theorem C08_housekeeping_keeps_live : forall c ops s,
 Proof. exact (fun c ops => housekeeping_keeps_live c (final c ops)). Qed.
 Print Assumptions C08_housekeeping_keeps_live.
 
+(* ... and nothing but housekeeping and shutdown removes an entry (its static part is kept) *)
+Theorem C08_only_housekeeping_and_stop_drop : forall c ops o s,
+  In s (st_table (final c ops)) ->
+  match o with
+  | Housekeeping | Stop _ _ => True
+  | _ => exists s', In s' (st_table (fst (step c (final c ops) o))) /\ same_static s s'
+  end.
+Proof. exact (fun c ops o s => step_keeps_entries c (final c ops) o s (proj1 (Inv_final c ops))). Qed.
+Print Assumptions C08_only_housekeeping_and_stop_drop.
+
 (* --- the filter: on the SDC action URIs suffix matching IS membership --- *)
 Theorem C08_filter_is_membership : forall f a,
   incl f sdc_actions -> In a sdc_actions -> (matches f a = true <-> In a f).
